@@ -477,6 +477,18 @@ def viewer_pickers(kind, viewer):
     return comp, data
 
 
+def born_and_died(world, extra):
+    """Structural class of stale subset layers right after a delay block: every stale layer is a subset that did not
+    exist when the block was opened and is no longer one of its dataset's subsets (created and deleted before its
+    create message was delivered), and its dataset is shown again."""
+    before = getattr(world, "subsets_before_block", None)
+    if before is None or not extra:
+        return {}
+    if all(isinstance(x, Subset) and not is_in(x, before) and not is_in(x, x.data.subsets) for x in extra):
+        return {"stale_layers_are_subsets_created_and_deleted_inside_the_delay_block": True}
+    return {}
+
+
 def quiescent_check(world, viewer, expected_keys=None, expected_layers=None, stage="live"):
     """(L) + (P) + (X) on a viewer; returns list of (kind, extra, detail)."""
     out = []
@@ -500,7 +512,9 @@ def quiescent_check(world, viewer, expected_keys=None, expected_layers=None, sta
                 what.add("missing_" + ("subset" if isinstance(x, Subset) else "data"))
             if dup and not what:
                 what.add("duplicate_layer")
-            out.append(("layers_differ_from_expected", {"what": "+".join(sorted(what))},
+            xs = {"what": "+".join(sorted(what))}
+            xs.update(born_and_died(world, extra))
+            out.append(("layers_differ_from_expected", xs,
                         {"layers": [layer_key(x) for x in got], "expected": [layer_key(x) for x in expected_layers]}))
     if expected_keys is not None:
         gk = sorted(json.dumps(layer_key(x)) for x in got)
@@ -513,7 +527,9 @@ def quiescent_check(world, viewer, expected_keys=None, expected_layers=None, sta
     for x in got:
         d = x.data if isinstance(x, Subset) else x
         if not is_in(d, list(dc)) or (isinstance(x, Subset) and not is_in(x, d.subsets)):
-            out.append(("layer_for_object_outside_collection", {"what": "subset" if isinstance(x, Subset) else "data"}, layer_key(x)))
+            xs = {"what": "subset" if isinstance(x, Subset) else "data"}
+            xs.update(born_and_died(world, [x]))
+            out.append(("layer_for_object_outside_collection", xs, layer_key(x)))
             break
     # (P) pickers
     try:
@@ -959,9 +975,7 @@ def gen_viewer_op(world, rng):
             world.ctx.count("delete_ungrouped_variant:" + variant)
 
             def upd_del(ok, ret):
-                if variant == "with_equal_twin_on_same_dataset":
-                    # structural marker for signatures (the operation name is lost inside delay blocks)
-                    world.sig_flags["deleted_subset_with_equal_twin_on_same_dataset"] = True
+                pass      # (signatures describe the failing step only; nothing sticky is carried over from here)
             return "delete_ungrouped:" + variant, (lambda: s_.delete()), upd_del
         return "noop", (lambda: None), None
     if world.kind == "image" and name in ("select", "flip_filter") and rng.random() < 0.45:
@@ -1312,6 +1326,7 @@ def run_viewer_history(ctx, kind, length):
             if in_block:
                 n = rng.randint(2, 3)
                 ctx.count("delay_blocks")
+                world.subsets_before_block = [s_ for d_ in world.pool for s_ in d_.subsets]
                 cm = world.dc.hub.delay_callbacks()
                 cm.__enter__()
                 try:
@@ -1335,6 +1350,8 @@ def run_viewer_history(ctx, kind, length):
                 name = apply_op(ctx, world, rng, trace)
                 step += 1
             world.prune()
+            if not in_block:
+                world.subsets_before_block = None
             res = quiescent_check(world, world.viewer, expected_layers=world.expected_layers())
             problems = report_viewer(ctx, world, name, prev, trace, res)
             prev = name
